@@ -356,6 +356,9 @@ def render_schema(ir, extends=None, imports=(), types=None, top=True,
 def render_component(types, imports=(), prefix=None):
     out = ["<component%s>" % _attrs([("prefix", prefix)])]
     for imp in imports:
+        if imp[0] == "src":
+            out.append("  <import src=%s/>" % quoteattr(imp[1]))
+            continue
         b = [("package", imp[1])]
         if len(imp) > 2 and imp[2]:
             b.append(("file", imp[2]))
